@@ -180,6 +180,13 @@ def _check_encoding(spec, ctx, all_tags, vocab, tags, scores):
     encoding.prediction_encoding([data.PredictedTag(tag=t, score=1.0) for t in others], enc)
     if not np.array_equal(got_ml, keep_ml) or not np.array_equal(got_p, keep_p):
         ctx.fail("an earlier multilabel / prediction encoding changed after the function was called again (results share a buffer)", spec, [got_ml.tolist(), got_p.tolist()], [keep_ml.tolist(), keep_p.tolist()], kind="result_aliased")
+    # two threads encoding against two vocabularies: this one is suspended at lines inside the library while the other thread builds
+    # its own encoder over the other vocabulary and encodes with it
+    def encode_all(voc):
+        e = encoding.create_tag_encoder(voc)
+        return ([e.encode(t) for t in all_tags], encoding.classification_encoding(tags, e), encoding.multilabel_encoding(tags, e).tolist(), encoding.prediction_encoding(ptags, e).tolist())
+
+    ctx.interleave(spec, "create_tag_encoder / *_encoding", lambda: encode_all(vocab), lambda: encode_all(dedup[::-1]), every=(97 if ctx.sub.startswith("encoding_small") else 6), max_pauses=40)
     # out-of-vocabulary tags never influence any result
     kept = [(t, s) for t, s, i in zip(tags, scores, in_vocab) if i is not None]
     kt = [t for t, _ in kept]
@@ -271,7 +278,7 @@ def hash_case(draw):
         # the same instant written with different UTC offsets (aware datetimes compare by instant); None = naive
         "tz_a": draw(st.sampled_from([None, None, 0, 1, -5])), "tz_b": draw(st.sampled_from([None, None, 0, 1, -5])),
         "payload_a": draw(st.integers(0, 2)), "payload_b": draw(st.integers(0, 2)),
-        "variant": draw(st.sampled_from(["independent", "deepcopy", "revalidate", "same_fields", "copy_update", "copy_update", "assign"])),  # revalidate = pydantic model_copy(deep=True)
+        "variant": draw(st.sampled_from(["independent", "deepcopy", "revalidate", "same_fields", "copy_update", "copy_update", "assign", "json_roundtrip", "dict_roundtrip", "explicit_defaults"])),  # revalidate = pydantic model_copy(deep=True)
     }
 
 
@@ -327,6 +334,19 @@ def check_hash(spec, ctx):
         b = copy.deepcopy(a)
     elif v == "revalidate":
         b = a.model_copy(deep=True)
+    elif v in ("json_roundtrip", "dict_roundtrip", "explicit_defaults"):
+        # the same object through another entry point: read back from its own JSON / dict dump (every field is then "set"), or built
+        # again with every field - defaults included - passed explicitly.  Which fields were given explicitly is not part of equality.
+        try:
+            if v == "json_roundtrip":
+                b = type(a).model_validate_json(a.model_dump_json())
+            elif v == "dict_roundtrip":
+                b = type(a).model_validate(a.model_dump())
+            else:
+                b = type(a)(**{**(a.model_extra or {}), **{(f.alias or k): getattr(a, k) for k, f in type(a).model_fields.items()}})
+        except ValueError:
+            ctx.label(f"{v}_not_accepted_fallback_deepcopy")  # e.g. NaN does not survive JSON
+            b = copy.deepcopy(a)
     elif v == "same_fields":
         s2 = dict(spec)
         for k in list(s2):
